@@ -1,6 +1,6 @@
 (* InstancesConc.v — the concurrent model at the harness's key/value instance *)
 From Coq Require Import ZArith.
-From GB Require Import Model Conc Instances GI.
+From GB Require Import Model Conc Instances GI CInv.
 
 Definition c_st := st HK HV.
 Definition c_cstep := @cstep HK HV hltb.
@@ -14,3 +14,4 @@ Definition c_erase := @erase_ids HK HV.
 Definition c_leaf_links := @leaf_links HK HV.
 Definition c_gi_b := @gi_b HK HV hltb.
 Definition c_gi_full_b := @gi_full_b HK HV hltb.
+Definition c_all_pc_ok_b := @all_pc_ok_b HK HV hltb.
